@@ -256,6 +256,41 @@ pub fn truthiness<S: Src>(s: &mut S) {
     s.check(r.is_ok() && x.nregs == depth && truthy_top(&x) == Some(false), "xor_same_value_is_false");
 }
 
+// ---------------------------------------------------------------- C06
+/// the end of an expression hands its one result back to exactly the call that entered it: with `k` calls active it pops ONE frame
+/// and ONE input value, drops the operands the expression left behind down to that call's depth, leaves its result as the single
+/// new operand and continues at that call's return point - whatever instruction stands there; with no call active it keeps the
+/// input-value depth, stores the result as the current input value and stops at the end of the instructions
+pub fn end_expression_returns_to_caller<S: Src>(s: &mut S) {
+    let mut d = ModelData::new();
+    let a = d.add(MCell::Number(SimpleNumber::Integer(1))).unwrap();
+    let res = d.add(MCell::Number(SimpleNumber::Integer(2))).unwrap();
+    // what stands at the four instruction addresses the calls may return to
+    d.ninstr = NINSTR; d.instr_len = NINSTR;
+    let mut i = 0; while i < NINSTR { d.instrs[i] = match s.below(4) { 0 => Instruction::EndExpression, 1 => Instruction::Add, 2 => Instruction::JumpTo, _ => Instruction::EndSideEffect }; i += 1; }
+    let k = s.below(NSTACK);                       // active calls: 0..3
+    d.push_value_stack(a).unwrap();                // the program's own input value
+    let mut rets = [0usize; NSTACK];
+    let mut depths = [0usize; NSTACK];
+    let mut i = 0; while i < k {
+        if s.bool() { d.push_register(a).unwrap(); } // operands pending in the caller
+        rets[i] = s.below(NINSTR); depths[i] = d.nregs;
+        d.push_frame(rets[i]).unwrap(); d.push_value_stack(a).unwrap();
+        i += 1;
+    }
+    if s.bool() { d.push_register(a).unwrap(); }   // something the ending expression left below its result
+    d.push_register(res).unwrap();
+    let (nf, nv) = (d.nframes, d.nvalues);
+    let r = ops::end_expression(&mut d);
+    if k == 0 {
+        s.check(matches!(r, Ok(Some(t)) if t == NINSTR) && d.nframes == 0 && d.nvalues == nv && d.values[nv - 1] == res, "last_expression_stores_result_and_stops");
+    } else {
+        s.check(matches!(r, Ok(Some(t)) if t == rets[k - 1]), "returns_to_the_innermost_call");
+        s.check(d.nframes == nf - 1 && d.nvalues == nv - 1, "pops_one_frame_and_one_input_value");
+        s.check(d.nregs == depths[k - 1] + 1 && d.regs[d.nregs - 1] == res, "result_is_the_one_new_operand_of_the_caller");
+    }
+}
+
 // ---------------------------------------------------------------- C08
 /// an arithmetic / bitwise instruction on operands that are not both numbers: offered to the host exactly once, in
 /// source order; declined => unit; accepted => the host's result; exactly one result either way
